@@ -153,3 +153,108 @@ Print Assumptions C16_vector_no_leak.
 Print Assumptions C16_string_resize_aborts_iff.
 Print Assumptions C16_string_reserve.
 End VS.
+
+(** * hash table (src/hash.c; HashModel.v, proofs HashAlloc.v): resize and
+    shrink_to_fit whose realloc is refused *)
+Require Cstl.HashProofs Cstl.HashSys Cstl.HashAlloc.
+Module HS.
+Import HashModel HashProofs HashInv HashOps HashTable HashSys HashAlloc.
+Local Open Scope N_scope.
+Section Hash.
+  Variable hf : fn_id -> N -> N -> option N.   (* any hash functions that do not trap *)
+  Variable key : nat -> N.
+  Variable ok : nat -> N -> bool.              (* any allocator oracle *)
+  Hypothesis Hdef : hf_def hf.
+
+  (** a resize beyond the capacity whose realloc is refused returns normally,
+      changes no table at all, allocates and frees nothing; the table invariant
+      and the allocator/table agreement (live blocks = the bucket arrays, no bad
+      free) still hold *)
+  Theorem C16_hash_resize_refused s i t n f :
+    sys_inv hf key s -> alloc_inv s -> nth_error (tabs s) i = Some t ->
+    0 < n -> n <= MAX_BUCKETS -> cap t < n -> grant ok (al s) (BUCKET_BYTES * n) = false ->
+    exists s' w,
+      exec hf key fixed ok s (Resize i n f) = XDone s' [0%Z] w /\
+      tabs s' = tabs s /\ AllocModel.live (al s') = AllocModel.live (al s) /\
+      AllocModel.events (al s') = EvReallocFail (at_blk t) (BUCKET_BYTES * n) :: AllocModel.events (al s) /\
+      sys_inv hf key s' /\ alloc_inv s'.
+  Proof. exact (resize_alloc_failure hf key ok Hdef s i t n f). Qed.
+
+  (** a shrink_to_fit whose realloc is refused keeps the elements (a pending
+      rehash is completed first, which is all that happens), the bucket array,
+      the capacity and the geometry the table was heading for *)
+  Theorem C16_hash_shrink_refused s i t :
+    in_range hf -> sys_inv hf key s -> alloc_inv s -> nth_error (tabs s) i = Some t ->
+    tgt_count t < cap t -> grant ok (al s) (BUCKET_BYTES * tgt_count t) = false ->
+    exists s' t' r w,
+      exec hf key fixed ok s (Shrink i) = XDone s' r w /\ tabs s' = upd (tabs s) i t' /\
+      Permutation (HashModel.live t') (HashModel.live t) /\ size t' = size t /\
+      cap t' = cap t /\ at_blk t' = at_blk t /\
+      tgt_count t' = tgt_count t /\ tgt_hash t' = tgt_hash t /\
+      AllocModel.live (al s') = AllocModel.live (al s) /\ sys_inv hf key s' /\ alloc_inv s'.
+  Proof. exact (shrink_alloc_failure hf key ok Hdef s i t). Qed.
+
+  (** every operation, failing allocations included, keeps the allocator
+      consistent with the tables: nothing leaked, nothing freed twice *)
+  Theorem C16_hash_alloc_consistent s o s' r w :
+    sys_inv hf key s -> alloc_inv s -> exec hf key fixed ok s o = XDone s' r w -> alloc_inv s'.
+  Proof. exact (exec_alloc_inv hf key ok Hdef s o s' r w). Qed.
+End Hash.
+Print Assumptions C16_hash_resize_refused.
+Print Assumptions C16_hash_shrink_refused.
+Print Assumptions C16_hash_alloc_consistent.
+End HS.
+
+(** * smart pointers and array views (src/memory.c, src/array.c; MemModel.v,
+    ArrayViewModel.v): a refused allocation leaves the object empty, frees
+    any half-built block and keeps every invariant *)
+Require Cstl.Properties_C05 Cstl.Properties_C14.
+Module MM.
+Import MemModel ArrayViewModel MemProofs ArrayViewProofs.
+Local Open Scope N_scope.
+Section Mem.
+  Variables (ks : list kind) (ex : list N).
+  Hypothesis pool_small : 2 * N.of_nat (length ks) < 4294967296.
+
+  (** shared_ptr_alloc with the outer (bookkeeping) or the inner (memory)
+      malloc refused: the object is empty afterwards, the half-built
+      bookkeeping block is gone, the invariant holds *)
+  Theorem C16_shared_alloc_refused ok s i o sz cb s1 :
+    reach lmstep (st_init ks ex) s -> nth_error (objs s) i = Some o -> ownerk (okind o) = true ->
+    wf_obj i o = true -> shared_reset s i = Ok s1 ->
+    (snd (malloc ok (al s1) DATA_SZ) = None \/
+     exists a1 d, malloc ok (al s1) DATA_SZ = (a1, Some d) /\ snd (malloc ok a1 sz) = None) ->
+    exists s', shared_alloc ok s i sz cb = Ok s' /\ inv s' /\
+      objs s' = upd (objs s) i (ptr_obj i o None) /\ (forall b, is_live (al s') b = is_live (al s1) b).
+  Proof. exact (Properties_C05.C05_shared_alloc_refused ks ex ok s i o sz cb s1). Qed.
+
+  Theorem C16_unique_alloc_refused ok s u o sz cb s1 :
+    reach lmstep (st_init ks ex) s -> nth_error (objs s) u = Some o -> okind o = KU -> wf_obj u o = true ->
+    unique_reset s (ASlot u) = Ok s1 -> snd (malloc ok (al s1) sz) = None ->
+    exists s', unique_alloc ok s (ASlot u) sz cb = Ok s' /\ inv s' /\
+      objs s' = upd (objs s) u (uobj u o None None) /\ live (al s') = live (al s1).
+  Proof. exact (Properties_C05.C05_unique_alloc_refused ks ex ok s u o sz cb s1). Qed.
+
+  (** cstl_array_alloc: the object ends up either empty or a full view of a
+      fresh adequate block; an unrepresentable byte count always gives the
+      empty object; the array invariant holds either way *)
+  Theorem C16_array_alloc_result ok s a o nm sz :
+    reach (lstep false) (st_init ks ex) s -> nth_error (objs s) a = Some o -> okind o = KA ->
+    wf_obj a o = true -> nm <= MAX64 -> sz <= MAX64 ->
+    exists s' p, array_alloc ok false s a nm sz = Ok s' /\ ainv s' /\
+      objs s' = upd (objs s) a (olo (ptr_obj a o p) 0 (match p with Some _ => nm | None => 0 end)) /\
+      (MAX64 < HDR + nm * sz -> p = None).
+  Proof. exact (Properties_C14.C14_alloc_result ks ex pool_small ok s a o nm sz). Qed.
+
+  (** after any history, failures included, resetting every object leaves
+      no live block *)
+  Theorem C16_mem_no_leak ok s :
+    reach (lstep false) (st_init ks ex) s ->
+    exists s', cleanup ok false s = Done s' [] /\ live (al s') = [].
+  Proof. exact (Properties_C05.C05_reset_all_leaks_nothing ks ex ok s pool_small). Qed.
+End Mem.
+Print Assumptions C16_shared_alloc_refused.
+Print Assumptions C16_unique_alloc_refused.
+Print Assumptions C16_array_alloc_result.
+Print Assumptions C16_mem_no_leak.
+End MM.
